@@ -696,3 +696,115 @@ class C15(FaultMonitorMixin, BaseMonitor):
 
 
 MONITORS["C15"] = C15
+
+
+# ---------------------------------------------------------------------------------------------------
+# C05
+
+class C05(FaultMonitorMixin, BaseMonitor):
+    """A what-if simulation never disturbs the baseline model."""
+    prop = "C05"
+
+    def __init__(self, sim, k, cfg, res, opts):
+        super().__init__(sim, k, cfg, res, opts)
+        self.check_next_edit = False
+
+    def next_op(self, i):
+        r = self.k.rng("op", i)
+        spec = self.sim.spec
+        inside = set(S.closure(spec))
+        if r.random() < 0.5:
+            extra, tag = None, None
+            x = r.random()
+            if x < 0.18:
+                present = sorted({o["cls"] for n_, o in spec["objs"].items() if n_ in inside})
+                entries = [e for e in faults.catalogue(spec, r.choice(present)) if e["strong"]]
+                if entries:
+                    e = r.choice(entries)
+                    extra, tag = [{"obj": e["obj"], "attr": e["attr"], "value": e["value"]}], "F1:" + e["fault"]
+            elif x < 0.45:
+                # (devices=[] is left to C15: combined with a change that empties the journey it does not raise but
+                # aliases "no value" objects, a degenerate configuration outside the envelope)
+                cands = [c for c in faults.failing_edits(self.sim, r) if c["op"] == "set" and c["attr"] != "devices"]
+                if cands:
+                    c = r.choice(cands)
+                    extra, tag = [{"obj": c["obj"], "attr": c["attr"], "value": c["value"]}], "F2:" + c["expect_site"]
+            op = opgen.gen_simulate(r, spec, self.cfg, inside, i, extra_changes=extra)
+            if op is not None:
+                if tag:
+                    op["fault"] = tag
+                return op
+        return opgen.gen_edit(r, spec, self.cfg, i)
+
+    def snapshot_diff(self, before, i, op, oracle, what):
+        after, pins = identity.snapshot(self.sim.world)
+        d = identity.diff(before, after)
+        self.res.count("identity_snapshots")
+        if d:
+            where = {f"{self.cls_of(k_[0])}.{k_[1]}" for k_, _ in d if k_[0] in self.sim.spec["objs"]}
+            raise Violation("C05", oracle, where or {"?"}, f"{what}: " + "; ".join(
+                f"{k_}: {why}" for k_, why in d[:5]) + (f" (+{len(d) - 5} more)" if len(d) > 5 else ""), i, op_kind(op))
+
+    def step(self, i, op):
+        sim = self.sim
+        if op["op"] != "simulate":
+            status, ret = self.execute(op)
+            if status == "raised":
+                self.res.count("ended_on_raise:" + type(ret).__name__)
+                self.stop = "op_raised"
+                return "raised"
+            if status == "hang":
+                self.stop = "hang_in_plain_edit"
+                return "hang"
+            if status == "ok" and self.check_next_edit:
+                self.compare_with_reference(i, op, "C05", "edit_after_simulation_deviates")
+                self.check_next_edit = False
+            return status
+        before, pins = identity.snapshot(sim.world)
+        status, ret = self.execute(op)
+        self.res.count("date:" + op.get("date_kind", "?"))
+        if status == "skip":
+            return "skip"
+        if status == "hang":
+            raise Violation("C05", "hang", {ret.site}, f"simulation does not return in {ret.site}", i, op_kind(op))
+        if status == "raised":
+            site = crash_site(ret)
+            self.res.count("fault:simulation_raised_in_" + (site or "validation:" + type(ret).__name__))
+            self.snapshot_diff(before, i, op, "baseline_changed_by_failed_simulation",
+                               f"simulation raised {type(ret).__name__} ({str(ret)[:100]})")
+            self.check_next_edit = True
+            return "raised"
+        mu = ret
+        self.res.count("simulations_created")
+        self.res.count("simulated_values", len(getattr(mu, "values_to_recompute", [])))
+        self.snapshot_diff(before, i, op, "baseline_changed_by_simulation", "after the simulation was created")
+        on = False
+        for n_, t in enumerate(op.get("toggles", [])):
+            try:
+                with runner_watchdog():
+                    if t == "set":
+                        mu.set_updated_values()
+                        on = True
+                    else:
+                        mu.reset_values()
+                        on = False
+            except Exception as e:
+                raise Violation("C05", "toggle_raised", {f"{t}:{type(e).__name__}"},
+                                f"toggle #{n_} ({t}) raised {type(e).__name__}: {str(e)[:160]}", i, op_kind(op))
+            self.res.count("toggle:" + t)
+            if not on:
+                self.snapshot_diff(before, i, op, "baseline_changed_by_toggles",
+                                   f"after toggles {op['toggles'][:n_ + 1]}")
+        if on:
+            mu.reset_values()
+            self.snapshot_diff(before, i, op, "baseline_changed_by_toggles", f"after toggles {op['toggles']} + reset")
+        self.check_next_edit = True
+        return "ok"
+
+
+def runner_watchdog():
+    from efsim.runner import watchdog
+    return watchdog()
+
+
+MONITORS["C05"] = C05
